@@ -1303,7 +1303,7 @@ pub fn worker(cfg: &WorkerCfg, emit: &mut dyn FnMut(Violation)) -> Stats {
         if !opened.is_empty() {
             cx.stats.distinct_nontrivial.insert(tree_hash(&sc, &[]));
         }
-        if cx.stats.samples.len() < 2 && opened.len() >= 2 {
+        if cx.stats.samples.is_empty() || (cx.stats.samples.len() < 2 && opened.len() >= 2) {
             cx.stats.samples.push(json!({"scenario": sc, "tree_outcome": base.tree.outcome.short(), "pasted_outcome": base.flat_out.short(), "pasted_text": base.flat.text, "trace": profile.iter().map(event_line).collect::<Vec<_>>()}));
         }
         // ---- other worlds: one used directory taken out of its documented place ---------
